@@ -636,13 +636,7 @@ def _is_increment(b, bb):
     return False
 
 
-def r7_diagnostic_code_does_not_panic(ctx):
-    ctx.rule('C09.R7', 'P3 audit with a reviewed table: the functions of pavexc::diagnostic (source spans, labels, registration locations, the sink) run exactly when '
-             'pavexc has something to report about the user\'s own source, whose shape pavexc does not control (a registration made through a '
-             '`#[track_caller]` helper, a macro, a call with fewer arguments than expected). Every panic site there — panic!/unwrap/expect, `[]` on a '
-             'collection or a str, an arithmetic / bounds assertion; `debug_assert!`s excepted — is one of the reviewed sites, each with the reason it '
-             'cannot fire. A new one turns "exits non-zero with a diagnostic" into a crash for some way of writing the blueprint.')
-    D = 'pavexc::diagnostic::'
+def _panic_site_audit(ctx, RID, D, TABLE, what, floor_bodies, floor_sites):
     PAN = ('core::panicking::', 'std::rt::begin_panic', 'core::option::unwrap_failed', 'core::result::unwrap_failed', 'core::option::expect_failed')
     UNW = {'core::option::Option::unwrap', 'core::option::Option::expect', 'core::result::Result::unwrap', 'core::result::Result::expect',
            'core::result::Result::unwrap_err', 'core::result::Result::expect_err'}
@@ -680,14 +674,46 @@ def r7_diagnostic_code_does_not_panic(ctx):
                 found[(fn, kind)] = found.get((fn, kind), 0) + 1
                 where.setdefault((fn, kind), b.loc(bb, t))
     for key, nsites in sorted(found.items()):
-        allowed = REVIEWED_DIAGNOSTIC_PANIC_SITES.get(key, (0, None))
+        allowed = TABLE.get(key, (0, None))
         ok = nsites <= allowed[0]
-        ctx.ob('C09.R7', 'diagnostic-panic-site|%s|%s' % key, ok, where[key],
+        ctx.ob(RID, what + '-panic-site|%s|%s' % key, ok, where[key],
                '%d site(s) of kind %s in %s; reviewed: %d%s' % (nsites, key[1], key[0], allowed[0], (' (%s)' % allowed[1]) if ok else
-                                                              ' — a panic site that nobody has argued away, on the path that reports the user\'s errors'))
-    ctx.floor('C09.R7', 'bodies of pavexc::diagnostic scanned', scanned, 60)
-    ctx.count('diagnostic_panic_sites_discharged_by_class', sum(auto.values()))
-    ctx.floor('C09.R7', 'panic sites found in pavexc::diagnostic (positive control)', sum(found.values()) + sum(auto.values()), 8)
+                                                              ' — a panic site that nobody has argued away, on a path that has to end in a diagnostic'))
+    ctx.floor(RID, 'bodies of %s scanned' % D, scanned, floor_bodies)
+    ctx.count(what + '_panic_sites_discharged_by_class', sum(auto.values()))
+    ctx.floor(RID, 'panic sites found in %s (positive control)' % D, sum(found.values()) + sum(auto.values()), floor_sites)
+
+
+def r7_diagnostic_code_does_not_panic(ctx):
+    ctx.rule('C09.R7', 'P3 audit with a reviewed table: the functions of pavexc::diagnostic (source spans, labels, registration locations, the sink) run exactly when '
+             'pavexc has something to report about the user\'s own source, whose shape pavexc does not control (a registration made through a '
+             '`#[track_caller]` helper, a macro, a call with fewer arguments than expected). Every panic site there — panic!/unwrap/expect, `[]` on a '
+             'collection or a str, an arithmetic / bounds assertion; `debug_assert!`s excepted — is one of the reviewed sites, each with the reason it '
+             'cannot fire. A new one turns "exits non-zero with a diagnostic" into a crash for some way of writing the blueprint.')
+    _panic_site_audit(ctx, 'C09.R7', 'pavexc::diagnostic::', REVIEWED_DIAGNOSTIC_PANIC_SITES, 'diagnostic', 60, 8)
+
+
+REVIEWED_CYCLE_DETECTOR_PANIC_SITES = {
+    # (function, kind): (count, why it cannot fire) - confirmed by reading the pinned tree
+    ('DependencyGraph::build', 'index:HashMap'): (1, '`node2index[&node]` in the else-branch of `if let Entry::Vacant(..) = node2index.entry(node)`: the key is present'),
+    ('DependencyGraph::build', 'index:StableGraph'): (3, 'the graph is indexed with indices this very loop got from `add_node`'),
+    ('DependencyGraph::build', 'panic'): (1, 'stated belief: error observers are never registered as somebody\'s input'),
+    ('DependencyGraph::build', 'unwrap'): (1, '`output_type()` is None for error observers only, excluded by the assertion one line above'),
+    ('cycle_error', 'assert:Overflow'): (1, '`i - 1` in the else-branch of `if i == 0`'),
+    ('cycle_error', 'index:Vec'): (1, '`cycle_components[i - 1]` with i from `enumerate()` over the same vector'),
+    ('cycle_error', 'index:StableGraph'): (1, 'node indices of a cycle that was found in this graph'),
+    ('cycle_error', 'panic'): (5, 'unreachable!(): input nodes have no incoming edge, MatchResult nodes were filtered out above, prebuilt types have no dependencies'),
+    ('cycle_error', 'unwrap'): (5, 'writeln! into a String; `last()` inside a loop over the same non-empty vector; `output_type()` of compute components'),
+    ('find_cycles::dfs', 'index:Vec'): (1, '`stack[cycle_start..]` with cycle_start = `stack.iter().position(..)`'),
+}
+
+
+def r14_cycle_detection_does_not_panic(ctx):
+    ctx.rule('C09.R14', 'P3 audit with a reviewed table (the form of C09.R7, on another module): `DependencyGraph` is built from the user\'s constructors and searched for '
+             'cycles before any call graph exists; a component that (transitively, or directly: `fn a(&A) -> A`) depends on its own output must end in the '
+             '"dependency cycle" diagnostic. Every panic site of `analyses::call_graph::dependency_graph` — unwrap / expect, `[]` on a map or a graph, an '
+             'arithmetic assertion — is one of the reviewed sites; a new one (a parent-map lookup that a self-loop never filled) turns that diagnostic into a crash.')
+    _panic_site_audit(ctx, 'C09.R14', 'pavexc::compiler::analyses::call_graph::dependency_graph::', REVIEWED_CYCLE_DETECTOR_PANIC_SITES, 'cycle-detector', 4, 1)
 
 
 R8_TOLERATED = {
@@ -1098,6 +1124,7 @@ def r13_every_module_entered_is_on_the_history(ctx):
 
 
 def check(ctx):
+    r14_cycle_detection_does_not_panic(ctx)
     r4_nothing_assumes_success_before_the_gate(ctx)
     r1_no_silent_failure(ctx)
     r2_writes_after_success(ctx)
